@@ -10,7 +10,7 @@ PROPS = {
     ),
     'C04': dict(
         verus=['compression', 'converter'],
-        kani=[],
+        kani=['tile_converter'],
         not_decided=[
             'the external codecs themselves (flate2, brotli): assumed inverse pairs',
             'TileConverter::process_stream / map_blob_parallel (C14): assumed to apply the pipeline to every blob',
@@ -19,7 +19,7 @@ PROPS = {
     ),
     'C05': dict(
         verus=['compression', 'converter'],
-        kani=[],
+        kani=['tile_converter'],
         not_decided=[
             'Accept-Encoding header substring matching, URL splitting and parse::<u32>, status-code mapping, axum/hyper framing',
             'Content-Type / Content-Encoding header construction in ok_data (axum response builder)',
@@ -36,7 +36,7 @@ PROPS = {
     ),
     'C08': dict(
         verus=['overlay', 'compression'],
-        kani=['pyramid'],
+        kani=['pyramid', 'tile_converter'],
         not_decided=[
             'get_tile_stream of the overlay (async closure per 32x32 sub-box mutating a captured vector)',
             'construction of the nested source pipelines (join_all, havoc under R9)',
